@@ -644,13 +644,14 @@ pub async fn arun_read_script(
     handle: &mut (dyn SeekAndRead + Send + Unpin),
     len: u64,
     script: &[crate::handles::ROp],
+    extremes: bool,
 ) -> Vec<Result<(u64, Vec<u8>), String>> {
     use crate::handles::*;
     let mut out = vec![];
     for op in script {
         match op {
             ROp::Seek(w, o) => {
-                let sf = seek_from(w, o, len, false, None);
+                let sf = seek_from(w, o, len, extremes, None);
                 let r = handle.seek(sf).await;
                 out.push(r.map(|p| (p, vec![])).map_err(|e| format!("{:?}", e.kind())));
             }
